@@ -167,6 +167,8 @@ CONTROLS = {
     "pre-off-": [(3, -0.3, False, KICK1)],
     "first+last": [(0, 0.0, False, KICK1), (N_PT, 0.0, False, KICK2)],
     "post-first+pre-off+": [(0, 0.0, True, KICK2), (2, 0.3, False, KICK1)],
+    "float-then-int(same step)": [(2, 0.2, False, KICK1), (2, "int", False, KICK2)],   # composition order = insertion order
+    "int-then-float(same step)": [(3, "int", True, KICK2), (3, -0.2, True, KICK1)],
     "pre-near-half+": [(1, 0.45, False, KICK1)],          # almost half way to the next step: must still act at step 1 only
     "post-near-half-": [(3, -0.45, True, KICK2)],
 }
@@ -177,7 +179,10 @@ def make_control(name, t0, s_control):
         return None
     ctrl = oq.Control(2)
     for k, off, post, mp in CONTROLS[name]:
-        ctrl.add_single(float(t0 + (k + off) * DT) + s_control, mp, post=post)
+        if off == "int":
+            ctrl.add_single(int(k), mp, post=post)           # a step number: not shifted
+        else:
+            ctrl.add_single(float(t0 + (k + off) * DT) + s_control, mp, post=post)
     return ctrl
 
 
@@ -433,6 +438,11 @@ def case_key(c):
 
 def run(tier, seed):
     rep = Report(LEVEL)
+    gj = [(sk, tau) for sk in ("H(t)", "gamma(t)") for tau in TAUS[tier] + [-7.3, 0.45]]
+    gres = pmap(guess_case, gj, seed=seed)
+    for j, r in zip(gj, gres):
+        if r["cls"]:
+            rep.add(Violation(r["cls"], r["what"], {"fam": "guess", "sys": j[0], "tau": j[1]}))
     cs = cases(tier)
     res = pmap(run_case, cs, chunksize=2, seed=seed)
     nontrivial = set()
@@ -466,6 +476,7 @@ def run(tier, seed):
     ratio = max(maxdev["truncated"] / tol_t, maxdev["shared"] / TOL_SHARED)
     finite_eff = [v for v in min_effect.values() if np.isfinite(v)]
     rep.coverage = {
+        "guessed_parameter_cases": {"cases": len(gj), "system_limits_dt": sum(1 for r in gres if r["limited"])},
         "evaluations": len(cs),
         "library_runs": int(sum(2 + len(r["effects"]) for r in res)),
         "distinct_nontrivial": len(nontrivial),
@@ -513,7 +524,37 @@ def run(tier, seed):
     return rep
 
 
+def guess_case(args):
+    """parameters the library chooses itself must not depend on the time origin either"""
+    import warnings
+    sysk, tau = args
+    bth = bath()
+
+    def guess(s_):
+        if sysk == "H(t)":
+            sysm = oq.TimeDependentSystem(lambda t: (1.5 + 2.5 * (t - s_)) * M.SX + 0.5 * M.SZ)
+        else:
+            sysm = oq.TimeDependentSystem(lambda t: 0.5 * M.SZ, gammas=[lambda t: 4.0 + 9.0 * (t - s_)],
+                                          lindblad_operators=[lambda t: M.SM])
+        with warnings.catch_warnings():
+            warnings.simplefilter("ignore")
+            p_ = oq.guess_tempo_parameters(bth, s_ + 0.0, s_ + 3.0, system=sysm, tolerance=1e-2)
+            q_ = oq.guess_tempo_parameters(bth, s_ + 0.0, s_ + 3.0, tolerance=1e-2)
+        return (p_.dt, p_.dkmax, p_.epsrel), q_.dt
+    try:
+        ref, bath_dt = guess(0.0)
+        got, _ = guess(float(tau))
+    except Exception as ex:  # noqa
+        return {"cls": f"guess|{sysk}|exception:{type(ex).__name__}", "what": str(ex)[:120], "limited": False}
+    bad = abs(got[0] - ref[0]) > 1e-9 * ref[0] or got[1] != ref[1] or abs(got[2] - ref[2]) > 1e-9 * ref[2]
+    return {"cls": f"guess|{sysk}|parameters-depend-on-the-time-origin" if bad else None,
+            "what": f"tau={tau}: guessed (dt, dkmax, epsrel) = {got}, un-shifted {ref}", "limited": ref[0] < bath_dt * (1 - 1e-9)}
+
+
 def replay(rp):
+    if rp.get("fam") == "guess":
+        r = guess_case((rp["sys"], rp["tau"]))
+        return {"obs": r["what"], "violation": r["cls"]}
     c = dict(rp)
     r = run_case(c)
     return {"obs": {"dev": None if r["dev"] is None else round(r["dev"], 12), "ulps": r["ulps"], "what": r["what"]},
